@@ -537,7 +537,7 @@ def limited(exe):
     """wrapper script: the same driver under an address-space limit (a wrong template choice can make
     apply-imports recurse without bound: that must end as a crash of the case, not eat the machine)"""
     w = exe + "_lim.sh"
-    txt = "#!/bin/sh\nulimit -v 3000000\nulimit -s 65536\nexec %s \"$@\"\n" % exe
+    txt = "#!/bin/sh\nulimit -v 1200000\nulimit -s 65536\nexec %s \"$@\"\n" % exe
     if not os.path.exists(w) or open(w).read() != txt:
         with open(w, "w") as f:
             f.write(txt)
